@@ -196,6 +196,18 @@ func (qt *quotaTopology) checkParentQuotaInfo(quotaName, parentName string) erro
 		if !parentInfo.IsParent {
 			return fmt.Errorf("%v has parentName %v but the parentQuotaInfo's IsParent is false", quotaName, parentName)
 		}
+		// the parent must be neither the quota itself nor one of its descendants,
+		// otherwise the parent links no longer reach the root.
+		for cur, depth := parentName, 0; cur != extension.RootQuotaName && depth <= len(qt.quotaInfoMap); depth++ {
+			if cur == quotaName {
+				return fmt.Errorf("%v has parentName %v which is the quota itself or one of its descendants", quotaName, parentName)
+			}
+			curInfo, exist := qt.quotaInfoMap[cur]
+			if !exist {
+				break
+			}
+			cur = curInfo.ParentName
+		}
 	}
 	return nil
 }
